@@ -49,7 +49,9 @@ AttrOf(e) == IF Mode = "wire"
 
 TReset == IsEvent("Reset") /\ l = 1 /\ UNCHANGED <<vars, Obs>>
 TGo == IsEvent("Go") /\ AtT /\ Known /\ Go(Ev.c, AttrOf(Ev)) /\ UNCHANGED Obs
-TAStart == /\ IsEvent("AStart") /\ AtT /\ Known /\ EnterFn(Ev.c) /\ UNCHANGED Obs
+TAStart == /\ IsEvent("AStart") /\ AtT /\ Known
+           /\ Named("UnexpectedAttempt", s[Ev.c].pc \notin {"done", "refused", "fn", "bo"})
+           /\ EnterFn(Ev.c) /\ UNCHANGED Obs
            /\ Named("AttemptNumber", Ev.i = s'[Ev.c].it)
            /\ Named("AttemptCtxState", Ev.err = Last(att'[Ev.c]).cs)
            /\ Named("AttemptCtxDeadline", Ev.dl = IF s[Ev.c].wrapped THEN s[Ev.c].dl ELSE None)
@@ -57,6 +59,7 @@ TAEnd == /\ IsEvent("AEnd") /\ AtT /\ Known /\ Ev.i = s[Ev.c].it
          /\ Named("UnknownResult", Class(Ev.res) # "unknown")
          /\ FnReturn(Ev.c, Ev.res) /\ UNCHANGED Obs
 TBO == /\ IsEvent("BO") /\ AtT /\ Known /\ Mode = "fort"
+       /\ Named("UnexpectedBackoff", s[Ev.c].pc \notin {"done", "refused", "fn", "sel", "call"})
        /\ Backoff(Ev.c, now + DelayLo(s[Ev.c].it)) /\ UNCHANGED Obs
        /\ Named("BackoffIteration", Ev.i = s[Ev.c].it)
 TParentCancel == IsEvent("ParentCancel") /\ AtT /\ Known /\ ParentCancel(Ev.c) /\ UNCHANGED Obs
@@ -83,6 +86,7 @@ TCtxDone == /\ IsEvent("CtxDone") /\ AtT /\ Known /\ Ev.c \notin obsCtx
             /\ Named("CtxEnd", s[Ev.c].ctx = Ev.err /\ s[Ev.c].ctxAt = Ev.t)
             /\ obsCtx' = obsCtx \cup {Ev.c} /\ UNCHANGED <<vars, obsRet, obsEdge>>
 TRet == /\ IsEvent("Ret") /\ AtT /\ Known /\ Ev.c \notin obsRet
+        /\ Named("UnexpectedReturn", s[Ev.c].pc \notin {"bo", "call", "fn", "init"})
         /\ s[Ev.c].pc \in {"done", "refused"} /\ s[Ev.c].endAt = Ev.t
         /\ obsRet' = obsRet \cup {Ev.c} /\ UNCHANGED <<vars, obsCtx, obsEdge>>
 \* the end of the schedule: everything has returned and has been seen to
